@@ -408,4 +408,11 @@ theorem gaugeLoop_spec [Zero α] (h : Lawful ci) (rest : List (QSite G α)) :
             _ = _ := fin
             _ = _ := by congr 1; abel
 
+theorem sumG_cong (h : Lawful ci) {β : Type*} (f : β → G) (out : List β) (ds : List G)
+    (hq : List.Forall₂ (fun o d => Cg ci (f o) d) out ds) : Cg ci (sumG (out.map f)) (sumG ds) := by
+  induction hq with
+  | nil => exact Cg.rfl' _
+  | cons h1 _ ih => simp only [List.map_cons, sumG]; exact cg_add h h1 ih
+
+
 end TenpyModel.C07Ext
